@@ -5,6 +5,8 @@ Model: Model/Paint.lean ⇄ skrifa/src/color/{traversal,mod}.rs, skrifa/src/decy
 -/
 import FontVerif.Model.Paint
 import FontVerif.Lemmas.Paint
+import FontVerif.Lemmas.PaintDepth
+import FontVerif.Lemmas.PaintChain
 set_option linter.unusedVariables false
 namespace FontVerif.C13
 open FontVerif FontVerif.Paint
@@ -106,5 +108,219 @@ theorem v0_ok_implies_balanced (c : Client) (layers : Nat → Option Gid) (first
   obtain ⟨new, he, hn⟩ := key _ St.init st rfl h
   simp only [St.init, List.nil_append] at he
   rw [he]; exact hn []
+
+/-! ### cyclic and too-deep graphs are errors -/
+
+private theorem enter_nil (pid : PaintId) : enter [] pid = .ok [pid] := rfl
+
+/-- a glyph with a v1 base record always gets a verdict -/
+private theorem paintV1_found {inst : Instance} {c : Client} {gid : Gid} {pid : PaintId}
+    (hb : inst.base gid = .found pid) : ∃ r, paintV1 inst c gid = some r := by
+  unfold paintV1
+  simp only [hb, enter_nil]
+  split
+  · exact ⟨_, rfl⟩
+  · split <;> exact ⟨_, rfl⟩
+
+private theorem paintV1_ok_trav {inst : Instance} {c : Client} {gid : Gid} {st : St}
+    (h : paintV1 inst c gid = some (none, st)) :
+    ∃ pid n st0, inst.base gid = .found pid ∧ inst.resolve pid = some n ∧
+      (trav inst c MAX_TRAVERSAL_DEPTH n [pid] st0).1 = none := by
+  unfold paintV1 at h
+  cases hb : inst.base gid with
+  | err => simp only [hb] at h; cases h
+  | notFound => simp only [hb] at h; cases h
+  | found pid =>
+    simp only [hb, enter_nil] at h
+    cases hres : inst.resolve pid with
+    | none => simp only [hres] at h; cases h
+    | some n =>
+      simp only [hres] at h
+      refine ⟨pid, n, (if inst.hasClip gid = true then emit c Event.pushClipBox St.init else St.init),
+        rfl, hres, ?_⟩
+      split at h
+      · cases h
+      · rename_i hr; exact hr
+
+/-- **Success means the graph below the glyph is shallow**: if painting succeeds (client does not
+short-cut `PaintColrGlyph`), every descending path from the root paint has fewer than
+`MAX_TRAVERSAL_DEPTH = 64` edges.  Cyclic and too-deep graphs are the two corollaries below. -/
+theorem ok_implies_depth_bounded (inst : Instance) (c : Client) (hc : ∀ g, c.cached g = .unimplemented)
+    (gid : Gid) (st : St) (h : paintV1 inst c gid = some (none, st))
+    (pid : PaintId) (n : Node) (hb : inst.base gid = .found pid) (hres : inst.resolve pid = some n)
+    (k : Nat) (hp : Path inst n k) : k < MAX_TRAVERSAL_DEPTH := by
+  obtain ⟨pid', n', st0, hb', hres', ht⟩ := paintV1_ok_trav h
+  rw [hb] at hb'; cases hb'
+  rw [hres] at hres'; cases hres'
+  exact trav_ok_paths inst c hc _ _ _ _ ht k hp
+
+/-- **A too-deep graph is reported as an error**: a descending path of 64 edges below the root paint
+(65 nested paints) makes `paint` return `Err`, whatever else the graph contains. -/
+theorem too_deep_is_error (inst : Instance) (c : Client) (hc : ∀ g, c.cached g = .unimplemented)
+    (gid : Gid) (pid : PaintId) (n : Node) (hb : inst.base gid = .found pid)
+    (hres : inst.resolve pid = some n) (hp : Path inst n MAX_TRAVERSAL_DEPTH) :
+    ∃ e st, paintV1 inst c gid = some (some e, st) := by
+  obtain ⟨⟨r1, st⟩, hr⟩ := paintV1_found (c := c) hb
+  cases r1 with
+  | some e => exact ⟨e, st, hr⟩
+  | none =>
+    have := ok_implies_depth_bounded inst c hc gid st hr pid n hb hres _ hp
+    exact absurd this (Nat.lt_irrefl _)
+
+/-- **A cyclic graph is reported as an error** (never recursed into forever): if some paint `a`
+reachable from the root paint lies on a cycle, `paint` returns `Err` — through `ColrLayers`,
+`ColrGlyph` or any mixture, with any tail, whether the tortoise–hare decycler or the depth limit
+fires first. -/
+theorem cycle_is_error (inst : Instance) (c : Client) (hc : ∀ g, c.cached g = .unimplemented)
+    (gid : Gid) (pid : PaintId) (n a : Node) (t k : Nat) (hb : inst.base gid = .found pid)
+    (hres : inst.resolve pid = some n) (hreach : Walk inst n a t) (hcyc : Walk inst a a (k + 1)) :
+    ∃ e st, paintV1 inst c gid = some (some e, st) := by
+  obtain ⟨⟨r1, st⟩, hr⟩ := paintV1_found (c := c) hb
+  cases r1 with
+  | some e => exact ⟨e, st, hr⟩
+  | none =>
+    have hw := hreach.trans (hcyc.pump MAX_TRAVERSAL_DEPTH)
+    have := ok_implies_depth_bounded inst c hc gid st hr pid n hb hres _ hw.toPath
+    have h2 : MAX_TRAVERSAL_DEPTH ≤ MAX_TRAVERSAL_DEPTH * (k + 1) := Nat.le_mul_of_pos_right _ (by omega)
+    omega
+
+/-- the decycler never cries wolf: `CycleDetected` is only answered for an id that is on the
+current path (ids identify paints, so that is a genuine cycle) -/
+theorem decycler_cycle_sound (path : List PaintId) (id : PaintId)
+    (h : enter path id = .error .cycle) : id ∈ path :=
+  enter_cycle_mem h
+
+/-- entering appends to the path and is refused once 64 ids are on it -/
+theorem decycler_enter_ok (path path' : List PaintId) (id : PaintId) (h : enter path id = .ok path') :
+    path' = path ++ [id] ∧ path.length < MAX_TRAVERSAL_DEPTH :=
+  enter_ok h
+
+/-! ### bounded number of visited paint nodes -/
+
+/-- **Visit bound**: painting visits at most `1 + k + … + k^63` paint nodes, where `k ≥ 2` bounds the
+length of every `PaintColrLayers` (255 for any font: `num_layers` is a `u8`).  The bound is
+exponential in the depth limit and cannot be improved to anything polynomial in the table size:
+see `glyph_chain_visits`. -/
+theorem visit_bound (inst : Instance) (c : Client) (k : Nat) (hk : 2 ≤ k) (hl : LayersBounded inst k)
+    (gid : Gid) (r : Option PErr) (st : St) (h : paintV1 inst c gid = some (r, st)) :
+    st.visits ≤ geom k MAX_TRAVERSAL_DEPTH := by
+  unfold paintV1 at h
+  cases hb : inst.base gid with
+  | err => simp only [hb] at h; cases h
+  | notFound => simp only [hb] at h; cases h
+  | found pid =>
+    simp only [hb, enter_nil] at h
+    have h0 : (if inst.hasClip gid = true then emit c Event.pushClipBox St.init else St.init).visits = 0 := by
+      split <;> rfl
+    cases hres : inst.resolve pid with
+    | none =>
+      simp only [hres] at h
+      cases h; rw [h0]; exact Nat.zero_le _
+    | some n =>
+      simp only [hres] at h
+      have hn : NodeOK k n := by
+        intro first num hn'; subst hn'; exact hl pid first num hres
+      have hv := trav_visits inst c k hk hl MAX_TRAVERSAL_DEPTH n [pid]
+        (if inst.hasClip gid = true then emit c Event.pushClipBox St.init else St.init) hn
+      rw [h0] at hv
+      generalize trav inst c MAX_TRAVERSAL_DEPTH n [pid]
+        (if inst.hasClip gid = true then emit c Event.pushClipBox St.init else St.init) = res at h hv
+      split at h
+      · cases h; omega
+      · cases h
+        split <;> (try simp only [emit_visits]) <;> omega
+
+/-- **Known finding (DESIGN §6-7), exact**: a tree-shaped chain of `d` nested `PaintGlyph` tables over
+one `PaintSolid` (`1 ≤ d ≤ 63`, about `6·d` bytes, no sharing, no cycle) paints successfully but
+visits `3·2^(d-1) − 1` paint nodes, for every client: each nested `PaintGlyph` makes the enclosing
+`CollectFillGlyphPainter` fail, so every level traverses its subtree twice.  Only the depth limit
+bounds it (`d = 63`: ≈ 1.4·10^19 visits). -/
+theorem glyph_chain_visits (c : Client) (d : Nat) (h1 : 1 ≤ d) (h2 : d < MAX_TRAVERSAL_DEPTH) :
+    ∃ st, paintV1 (glyphChain d) c 0 = some (none, st) ∧ st.visits = chainVisits d ∧
+      st.visits + 1 = 3 * 2 ^ (d - 1) := by
+  obtain ⟨j, rfl⟩ : ∃ j, d = j + 1 := ⟨d - 1, by omega⟩
+  have hs := chain_step (j + 1) c j 0 (by omega) MAX_TRAVERSAL_DEPTH
+    (by simp only [MAX_TRAVERSAL_DEPTH] at h2 ⊢; omega) [0] St.init
+  have hres : (glyphChain (j + 1)).resolve 0 = some (.glyph 0 (0 + 1)) := chain_resolve_inner _ _ (by omega)
+  unfold paintV1
+  have hb : (glyphChain (j + 1)).base 0 = .found 0 := rfl
+  have hclip : (glyphChain (j + 1)).hasClip 0 = false := rfl
+  simp only [hb, enter_nil, hres, hclip, Bool.false_eq_true, if_false]
+  generalize trav (glyphChain (j + 1)) c MAX_TRAVERSAL_DEPTH (.glyph 0 (0 + 1)) [0] St.init = r at hs
+  obtain ⟨ha, hv, _⟩ := hs
+  simp only [ha]
+  refine ⟨_, rfl, ?_, ?_⟩
+  · rw [hv]; simp [St.init]
+  · rw [hv]; simp only [St.init, Nat.zero_add, Nat.add_sub_cancel]; exact chainVisits_closed j
+
+/-! ### non-vacuity: concrete graphs -/
+
+/-- result class and recorded stream -/
+private def outcome (r : Option Res) : Option (Option PErr × List Event) := r.map (fun x => (x.1, x.2.evs))
+
+private def unimpl : Client := Client.ofModes 1 0
+private def defaultFg : Client := Client.ofModes 0 0
+
+/-- a `PaintColrLayers` whose only layer is itself: reported as `PaintCycleDetected`, no callback -/
+example : outcome (paintV1 (Instance.ofTables [(10, .colrLayers 0 1)] [(0, some 10)] [(1, some 10)] []) unimpl 1)
+    = some (some .cycle, []) := by decide
+
+/-- two colour glyphs referring to each other: the tortoise–hare check only fires on the fourth
+entry (path `[10, 20, 10]`, compares with index 1) -/
+example : outcome (paintV1 (Instance.ofTables [(10, .colrGlyph 2), (20, .colrGlyph 1)] []
+    [(1, some 10), (2, some 20)] []) unimpl 1) = some (some .cycle, [.cached 2, .cached 1]) := by decide
+
+/-- the hypotheses of `cycle_is_error` are satisfiable: that graph has a walk root → root of length 2 -/
+example : Walk (Instance.ofTables [(10, .colrGlyph 2), (20, .colrGlyph 1)] [] [(1, some 10), (2, some 20)] [])
+    (.colrGlyph 2) (.colrGlyph 2) (1 + 1) :=
+  .step (.colrGlyph (pid := 20) rfl rfl) (.step (.colrGlyph (pid := 10) rfl rfl) (.here _))
+
+/-- transform chain: paint `i < len` is a transform of paint `i+1`, paint `len` is a solid -/
+private def transformChain (len : Nat) : Instance where
+  resolve := fun i => if i < len then some (.transform (i + 1)) else if i = len then some (.leaf true) else none
+  layer := fun _ => none
+  base := fun g => if g = 1 then .found 0 else .notFound
+  hasClip := fun _ => false
+
+/-- 64 nested paints (63 edges) still paint … -/
+example : (paintV1 (transformChain 63) unimpl 1).map (fun r => (r.1, r.2.evs.length, r.2.visits))
+    = some (none, 127, 64) := by decide +kernel
+/-- … 65 nested paints (64 edges) are `DepthLimitExceeded`: the limit in `too_deep_is_error` is tight -/
+example : (paintV1 (transformChain 64) unimpl 1).map (fun r => (r.1, r.2.visits))
+    = some (some .depth, 64) := by decide +kernel
+
+/-- a layered glyph with a clip box: both layers are optimised into `fill_glyph` (the second with a
+brush transform), inside the clip box push/pop -/
+example : outcome (paintV1 (Instance.ofTables
+      [(10, .colrLayers 0 2), (20, .glyph 5 21), (21, .leaf true), (30, .glyph 6 31), (31, .transform 32),
+       (32, .leaf true)]
+      [(0, some 20), (1, some 30)] [(1, some 10)] [1]) unimpl 1)
+    = some (none, [.pushClipBox, .fillGlyph 5 false, .fillGlyph 6 true, .popClip]) := by decide
+
+/-- the same glyph for a client relying on the default `fill_glyph` -/
+example : outcome (paintV1 (Instance.ofTables
+      [(10, .colrLayers 0 2), (20, .glyph 5 21), (21, .leaf true), (30, .glyph 6 31), (31, .transform 32),
+       (32, .leaf true)]
+      [(0, some 20), (1, some 30)] [(1, some 10)] [1]) defaultFg 1)
+    = some (none, [.pushClipBox, .pushClipGlyph 5, .fill, .popClip,
+                   .pushClipGlyph 6, .pushT, .fill, .popT, .popClip, .popClip]) := by decide
+
+/-- failed optimisation after a first successful `fill`: `PaintGlyph(ColrLayers[solid, composite])`.
+The first (collecting) pass already sent `fill_glyph` to the client before giving up, then the
+un-optimised pass paints the solid again — balanced, but the first layer is painted twice. -/
+example : outcome (paintV1 (Instance.ofTables
+      [(10, .glyph 5 11), (11, .colrLayers 0 2), (20, .leaf true), (30, .composite 31 12 32),
+       (31, .leaf true), (32, .leaf true)]
+      [(0, some 20), (1, some 30)] [(1, some 10)] []) unimpl 1)
+    = some (none, [.fillGlyph 5 false, .pushClipGlyph 5, .fill, .pushLayer 3, .fill, .pushLayer 12, .fill,
+                   .popLayer 12, .popLayer 3, .popClip]) := by decide
+
+/-- glyph chain of depth 5: 47 = 3·2^4 − 1 visits for 6 paint tables -/
+example : (paintV1 (glyphChain 5) unimpl 0).map (fun r => (r.1, r.2.visits)) = some (none, 47) := by decide
+
+/-- `paint_cached_color_glyph = Ok`: the sub-glyph is not traversed, the stream stays balanced -/
+example : outcome (paintV1 (Instance.ofTables [(10, .transform 11), (11, .colrGlyph 2), (20, .leaf true)] []
+    [(1, some 10), (2, some 20)] [2]) (Client.ofModes 1 1) 1)
+    = some (none, [.pushT, .cached 2, .popT]) := by decide
 
 end FontVerif.C13
